@@ -274,7 +274,8 @@ PROPS = {
         "assumptions": ["the monitor reads the pre-image through decoders that were themselves validated on every snapshot by C16's run", "worker interleavings are whatever the runs exhibit"],
     },
     "C15": {
-        "runs": [{"cmd": "stress", "args": ["--millis", "600"], "cases": {"quick": 2, "thorough": 8}, "shards": {"quick": 4, "thorough": 16}, "per_shard_cases": True}],
+        "runs": [{"cmd": "locks-scenarios", "cases": {"quick": 1, "thorough": 1}, "corpus": True},
+                 {"cmd": "stress", "args": ["--millis", "600"], "cases": {"quick": 2, "thorough": 8}, "shards": {"quick": 4, "thorough": 16}, "per_shard_cases": True}],
         "rule": "cases = threaded runs (child process under a 30 s watchdog) with (4,3), (2,4), (6,2), (1,5) reader/writer threads for 600 ms each: writers read the current stamp in a session, write a fresh stamp to 9 stamp keys spread over several root children (plus private churn; every fifth stamp is an overflow value) and commit blocking / non-blocking (retrying while deferred) / as overlay; readers open sessions of random lifetime, read all stamp keys 1-4 times and prove a third of them. Oracles: one session never sees two stamps; every proof verifies against the session's own base root and confirms the value read; the successful commits form a chain from the final stamp back to the initial state (each winner's base stamp is the previous winner's stamp; every reported success is on the chain); the final state is not torn; no thread panics; the run terminates. distinct & non-trivial = completed runs.",
         "trusted_base": ["lock protocol LTS Api/Locks.lean is a hand-written abstraction of access_lock / shared root check in nomt/src/lib.rs", "the OS scheduler decides which interleavings the stress run exhibits"],
         "assumptions": ["schedules are sampled, not enumerated (no yield-point hook installed)", "rollbacks are not part of the stamp-chain stress (they take the same write guard; exercised single-threaded by C09)"],
